@@ -106,7 +106,7 @@ def gen_acts(rng, n, p_fail=0.25, p_skip=0.05, p_mock=0.1, die=None, die_at=None
     return acts
 
 
-BEHAVIOURS = ["pass", "fail", "empty", "xskip", "skip", "signal", "exit", "mixed", "mock", "skipfail", "ctxfail", "ctxdie"]
+BEHAVIOURS = ["pass", "fail", "empty", "xskip", "skip", "signal", "exit", "mixed", "mock", "skipfail", "ctxfail", "ctxdie", "ctxmock"]
 
 
 def gen_test(rng, name, allow_die=True, allow_skip=True, behaviours=None):
@@ -129,6 +129,9 @@ def gen_test(rng, name, allow_die=True, allow_skip=True, behaviours=None):
     elif b == "mixed": t.body = gen_acts(rng, max(1, n) + 2, p_skip=0.0 if not allow_skip else 0.05)
     elif b == "mock": t.body = gen_acts(rng, max(1, n), p_mock=0.6, p_skip=0)
     elif b == "ctxfail": t.ctx = 1; t.setup = gen_acts(rng, 1, p_fail=0.5, p_skip=0, p_mock=0); t.body = ["P"]; t.teardown = gen_acts(rng, 1, p_fail=0.5, p_skip=0, p_mock=0)
+    elif b == "ctxmock":      # expectations declared by the fixtures: the tally comes after the teardown
+        t.ctx = 1; t.body = rng.choice([["P"], ["MF"], ["F"]])
+        t.setup = rng.choice([[], ["MF"], ["MP"]]); t.teardown = rng.choice([["MF"], ["MP"], ["MF", "MP"]])
     elif b == "ctxdie":
         t.ctx = 1; t.body = ["P"]
         if rng.random() < 0.5: t.setup = ["P", "K11"]
